@@ -33,10 +33,13 @@ structure MountType where
   root : Bytes
   deriving Repr, DecidableEq, BEq
 
+/-- `roots`: mountpoints showing the root of the file system; `subroots`: (root, mountpoint)
+    of the mounts showing part of it (a bind-mounted subdirectory, a subvolume) -/
 structure Device where
   stDev : Bytes
   name : Bytes
   roots : List Bytes
+  subroots : List (Bytes × Bytes) := []
   deriving Repr, DecidableEq, BEq
 
 structure Mounts where
@@ -74,10 +77,11 @@ def parseOverlayOpts (superOpts : Bytes) : OvlOpts :=
   (splitOn 44 superOpts).foldl ovlStep {}
 
 def addDevice (devs : List Device) (stDev fsname root mtpoint : Bytes) : List Device :=
-  let devs' := if devs.any (·.stDev == stDev) then devs else devs ++ [⟨stDev, fsname, []⟩]
+  let devs' := if devs.any (·.stDev == stDev) then devs else devs ++ [⟨stDev, fsname, [], []⟩]
   if root = [47] then
     devs'.map fun d => if d.stDev == stDev then { d with roots := d.roots ++ [mtpoint] } else d
-  else devs'
+  else
+    devs'.map fun d => if d.stDev == stDev then { d with subroots := d.subroots ++ [(root, mtpoint)] } else d
 
 /-- one line of mountinfo; `none`-like skip is `ok st` unchanged; index errors panic -/
 def probeLine (st : PState) (line : Bytes) : Res PState :=
@@ -144,9 +148,14 @@ def getMountSources (m : Mounts) (mnt : MountType) : Res (List Bytes) :=
   match getDevice m mnt.stDev with
   | none => Res.panic     -- nil dereference in Go; unreachable for mounts taken from `m`
   | some dev =>
-    if mnt.source.length > 0 then .ok [mnt.source] else
-    let (first, root) := if mnt.root = [47] then ([dev.name], ([] : Bytes)) else ([], mnt.root)
-    .ok (first ++ (dev.roots.map (fun mp => pathJoin [mp, root])).filter (· != mnt.mountpoint))
+    -- (after fix 23c682d) the overlay lower directory, the device name for a mount of the
+    -- file system's root, the mounted directory as seen through every root mount and through
+    -- every mount of a directory that is the mounted one or above it
+    .ok ((if mnt.source.length > 0 then [mnt.source] else [])
+      ++ (if mnt.root = [47] then [dev.name] else [])
+      ++ (dev.roots.map (fun mp => pathJoin [mp, mnt.root])).filter (· != mnt.mountpoint)
+      ++ ((dev.subroots.filter fun s => mnt.root == s.1 || hasPrefix mnt.root (s.1 ++ [47])).map
+            (fun s => pathJoin [s.2, mnt.root.drop s.1.length])).filter (· != mnt.mountpoint))
 
 def mountSourceIsExpected (m : Mounts) (mnt : MountType) (test : Bytes) : Res Bool :=
   (getMountSources m mnt).map (·.contains test)
